@@ -178,7 +178,7 @@ func (s *SimSCTP) SCTPWrite(b []byte, info *sctp.SndRcvInfo) (int, error) {
 		}
 		s.writes = append(s.writes, sctpWrite{st, append([]byte{}, b[:k]...), s.tag, true})
 		s.e.Fault("sctp-write-temp-error")
-		return k, &simNetErr{"sim: temporary SCTP write error", true}
+		return k, &simNetErr{msg: "sim: temporary SCTP write error", temp: true}
 	}
 	s.writes = append(s.writes, sctpWrite{st, append([]byte{}, b...), s.tag, false})
 	return len(b), nil
@@ -435,6 +435,10 @@ func c19RunX(e *Env, wide bool, sw *c19SweepCase, park bool) {
 		used := map[uint16]bool{}
 		for i := 0; i < ns; i++ {
 			id := uint16(t.Draw(16))
+			if t.Chance(1, 6) {
+				// stream numbers beyond the usual sixteen
+				id = []uint16{16, 17, 31, 100, 255, 4000}[t.Draw(6)]
+			}
 			for used[id] {
 				id = (id + 1) % 16
 			}
